@@ -309,6 +309,25 @@ theorem no_dangling_partial (m : Mode) (units : List (UnitHdr × List Entry)) (d
     simp only [hl1.1, if_true]
     exact List.mem_flatMap.2 ⟨o, ho, ht⟩
 
+/-! ## skipping unreserved entries keeps the parent links -/
+
+/-- **`convert_parent_links`** — `ConvertUnit::read_entry` (its own depth stack, on which only
+reserved entries are pushed) gives every reserved entry exactly the parent that the `FilterUnit`
+stack found for it (the unit root if it has none), and outputs exactly the reserved entries in
+read order — provided the reserved set is closed under "parent of" (clause 2 of `closure_props`)
+and the entries lie below the root (`depth > 0`). For ALL entry sequences and reserved sets. -/
+theorem convert_parent_links (ids : List Off) (u : UnitHdr) (es : List Entry)
+    (res : List (Off × Option Off))
+    (hdepth : ∀ e, e ∈ es → 0 < e.depth)
+    (hclosed : ∀ ep, ep ∈ withParents [] es → ids.contains (u.base + ep.1.off) = true →
+        ∀ p, ep.2 = some p → ids.contains (u.base + p.off) = true)
+    (h : convertEntries ids u [(0, u.rootOff)] es [] = .ok res) :
+    res = filterLinks ids u [] es := by
+  have h1 := convertEntries_links ids u es _ [] res h
+  have h2 := convertLinks_eq ids u es [] List.Pairwise.nil hdepth hclosed
+  simp only [convStack, List.filter_nil, List.map_nil, List.nil_append] at h2
+  rw [h1, h2]; rfl
+
 /-! ## reservation by unit -/
 
 /-- **`partition_by_unit`** — `new_with_filter` splits the sorted reachable list into per-unit
@@ -421,12 +440,14 @@ example : exDeps.Reachable 30 :=
 /-- unit 0 (header 11 bytes, root DIE 4 bytes): `15` namespace ⊃ `23` structure_type (required) ⊃
 `31` member with a `DW_FORM_ref_addr` to `65`; `39` subprogram definition (not kept by anything);
 unit 1: `65` base_type, `73` variable -/
+def exUnit0 : List Entry :=
+  [ ⟨15, 1, true, 0x39, false, [], false⟩,
+    ⟨23, 2, true, 0x13, false, [], true⟩,
+    ⟨31, 3, false, 0x0d, false, [.infoRef 65], false⟩,
+    ⟨39, 1, false, 0x2e, false, [.unitRef 23], false⟩ ]
+
 def exForest : List (UnitHdr × List Entry) :=
-  [ (⟨0, 11, 36⟩,
-      [ ⟨15, 1, true, 0x39, false, [], false⟩,
-        ⟨23, 2, true, 0x13, false, [], true⟩,
-        ⟨31, 3, false, 0x0d, false, [.infoRef 65], false⟩,
-        ⟨39, 1, false, 0x2e, false, [.unitRef 23], false⟩ ]),
+  [ (⟨0, 11, 36⟩, exUnit0),
     (⟨50, 11, 20⟩,
       [ ⟨15, 1, false, 0x24, false, [], false⟩,
         ⟨23, 1, false, 0x34, false, [], false⟩ ]) ]
@@ -440,6 +461,9 @@ example : (buildDeps .release exForest).isOk = true := by decide
 example : attrRecorded (.loclist [(true, [.unitRef 23, .infoRef 65])]) = true := by decide
 /-- … and `partition_by_unit`'s hypotheses hold for the example's units and result -/
 example : [(⟨0, 11, 36⟩ : UnitHdr), ⟨50, 11, 20⟩].Pairwise (fun u v => u.endOff ≤ v.base) := by decide
+
+example : (convertEntries [11, 15, 23, 31, 65] ⟨0, 11, 36⟩ [(0, 11)] exUnit0 []).toOption =
+    some (filterLinks [11, 15, 23, 31, 65] ⟨0, 11, 36⟩ [] exUnit0) := by decide
 
 /-- recorded finding C19-1: a required subprogram (`15`) whose location expression has a
 `DW_OP_implicit_pointer` to the root-level variable `23`: the filter records no edge, `23` is not
